@@ -452,6 +452,7 @@ void hashmap_test(void);
 bool file_exists(char *path);
 
 extern StringArray include_paths;
+extern bool opt_E;
 extern bool opt_fpic;
 extern bool opt_fcommon;
 extern char *base_file;
